@@ -3,7 +3,7 @@
 From Coq Require Import List NArith Bool String Ascii.
 From T4V Require Import Base.Str C14.Model C14.ProofsContent C14.ProofsCards C14.ProofsCase
   C14.ProofsSplit C14.ProofsBlocks C14.ProofsCell C14.ProofsFront C14.ProofsNumber
-  C14.ProofsDeck C14.ProofsCell2 C14.ProofsMeta.
+  C14.ProofsDeck C14.ProofsCell2 C14.ProofsMeta C14.ProofsExpand C14.Exec.
 Import ListNotations.
 Open Scope string_scope.
 
@@ -531,3 +531,55 @@ Proof.
   split; unfold laid_ok, msg_ok, deck_ok, lines_ok, nonblank_lines, blank_lines, breaks_ok,
            comment_lines, line_ok, not_c, item_ok, gap_nonempty, trailer_ok; c14_solve.
 Qed.
+
+(* ---- data-card shorthand (token level) ---- *)
+
+(* expand_data_card, for ANY reading of the numbers (V, rd = to_float on a
+   plain entry, lin = the interpolates, mul = the product): after an entry
+   that reads as v,
+     nR   gives the same values as the entry written n more times,
+     nJ   the same as n single J,
+     nI u the same as the n interpolates written out followed by u,
+     xM   the same as the product written out;
+   shorthand letters in either case (tokens are lower-cased first). Stated
+   for expected=None (the whole card is consumed), values only: the count of
+   consumed tokens differs by construction. *)
+Theorem C14_shorthand_invariant :
+  forall (V : Type) (rd : string -> option V) (lin : V -> V -> nat -> list V) (mul : V -> V -> V)
+         (acc : list (option V)) (k : nat) (ts : list string),
+  (forall t pre n x v,
+     kind_of (lower t) = KRep pre -> count_of pre = Some n -> plain V rd x v ->
+     vals V (run V rd lin mul None (Some v :: acc) k (t :: ts))
+     = vals V (run V rd lin mul None (Some v :: acc) k (repeat x n ++ ts)%list)) /\
+  (forall t pre n,
+     kind_of (lower t) = KJump pre -> count_of pre = Some n ->
+     vals V (run V rd lin mul None acc k (t :: ts))
+     = vals V (run V rd lin mul None acc k (repeat "j" n ++ ts)%list)) /\
+  (forall t pre n lo u hi xs,
+     kind_of (lower t) = KInt pre -> count_of pre = Some n -> plain V rd u hi ->
+     Forall2 (plain V rd) xs (lin lo hi n) ->
+     vals V (run V rd lin mul None (Some lo :: acc) k (t :: u :: ts))
+     = vals V (run V rd lin mul None (Some lo :: acc) k (xs ++ u :: ts)%list)) /\
+  (forall t c pre f v x,
+     kind_of (lower t) = KMul (String c pre) -> rd (String c pre) = Some f -> plain V rd x (mul v f) ->
+     vals V (run V rd lin mul None (Some v :: acc) k (t :: ts))
+     = vals V (run V rd lin mul None (Some v :: acc) k (x :: ts))).
+Proof.
+  intros V rd lin mul acc k ts. repeat split; intros.
+  - eapply expand_repeat; eauto.
+  - eapply expand_jump; eauto.
+  - eapply expand_interpolate; eauto.
+  - eapply expand_multiply; eauto.
+Qed.
+Print Assumptions C14_shorthand_invariant.
+
+(* non-vacuity at exact rationals: 1 2R 2I 7 3M J  =  1 1 1 3 5 7 21 j *)
+Example C14_shorthand_invariant_nonvacuous :
+  kind_of (lower "2R") = KRep "2" /\ count_of "2" = Some 2 /\
+  plain QArith_base.Q rd_int "1" (QArith_base.inject_Z (BinNums.Zpos BinNums.xH)) /\ kind_of (lower "2I") = KInt "2" /\
+  kind_of (lower "3M") = KMul "3" /\ kind_of (lower "J") = KJump "" /\
+  vals _ (expand _ rd_int lin_q mul_q None ["1"; "2R"; "2I"; "7"; "3M"; "J"])
+  = vals _ (expand _ rd_int lin_q mul_q None ["1"; "1"; "1"; "3"; "5"; "7"; "21"; "j"]) /\
+  expand_q None ["1"; "2R"; "2I"; "7"; "3M"; "J"]
+  = ser_list ["1/1"; "1/1"; "1/1"; "3/1"; "5/1"; "7/1"; "21/1"; "J"] ++ sep2 ++ "6".
+Proof. repeat split; vm_compute; reflexivity. Qed.
